@@ -15,7 +15,9 @@ DEFINITE_FLOOR = 0.8
 ASSUMPTIONS = [
                "data strings with a lone CR are outside the quantifier (F11: whether a lone CR is a line break is not decided by the property)"]
 DATA = {"one": [1], "s": "one", "m": "l1\nl2", "m3": "a\nb\nc\n", "e": "", "t": True, "f": False, "nl": "\n", "crlf": "x\r\ny",
-        "ys": ["y1", "y2"], "o": {"k": "v\nw"}, "lead": "\nafter", "sp": "  "}
+        "ys": ["y1", "y2"], "o": {"k": "v\nw"}, "lead": "\nafter", "sp": "  ",
+        # values that are not strings: a number, a boolean, null, an array as the FIRST output of a line
+        "num": 5, "neg": -2.5, "nil": None, "nums": [1, True, 2.5, None], "big": 2 ** 63}
 
 
 def free_pieces(rng, depth):
@@ -69,7 +71,8 @@ def body_lines(rng, level, names):
         if k == "text":
             lines.append(rng.pick(["text", "  indented", "a b c", "\ttab", "x<y"]) + "\n")
         elif k == "expr":
-            lines.append("{{{" + rng.pick(["s", "m", "m3", "e", "nl", "crlf", "o.k", "lead", "sp"]) + "}}}\n")
+            nm_ = rng.pick(["s", "m", "m3", "e", "nl", "crlf", "o.k", "lead", "sp", "num", "t", "f", "neg", "nil", "nums", "big", "this.num", "this.t"])
+            lines.append(rng.pick(["{{{%s}}}", "{{{%s}}}", "{{%s}}", "{{&%s}}", "{{%s}} items", "{{{%s}}}{{num}}"]) % nm_ + "\n")
         elif k == "mixed":
             lines.append("x{{{" + rng.pick(["s", "m", "e", "m3"]) + "}}}y" + rng.pick(["{{{m}}}", ""]) + "\n")
         elif k == "ifinline":
@@ -77,7 +80,7 @@ def body_lines(rng, level, names):
         elif k == "ifblock":
             lines.append("{{#if " + rng.pick(["t", "f"]) + "}}\n  inner {{{" + rng.pick(["s", "m"]) + "}}}\n{{else}}\n  other\n{{/if}}\n")
         elif k == "each":
-            lines.append("{{#each ys}}\n- {{{this}}}\n{{/each}}\n")
+            lines.append(rng.pick(["{{#each ys}}\n- {{{this}}}\n{{/each}}\n", "{{#each nums}}\n{{this}} n\n{{@index}}:{{@first}}\n{{/each}}\n", "{{#each ys}}\n{{@index}}. {{this}}\n{{/each}}\n"]))
         elif k == "nested":
             lines.append(rng.pick(["  ", "\t", "    ", ""]) + "{{> " + rng.pick(names) + "}}\n")
         elif k == "comment":
